@@ -682,10 +682,19 @@ package originium
 //@ props C12
 //@ trusted no functional contract yet (C09 compaction glue); only the lock clause below is used, and it is checked on the body by the C12 sweep
 //@ holds lm.mu
-//@ func (*originium.levelManager).maxLevelIdx
-//@ props C12
-//@ trusted no functional contract yet (C09 compaction glue); only the lock clause below is used, and it is checked on the body by the C12 sweep
+// maxLevelIdx (C09: the merged table gets an index no live table of the level has, so writing it
+// cannot clobber a live table's file): the result is at least the index of every table of the level,
+// and -1 for an empty level - whatever the order of the list (after recovery it is file-name order).
+//@ func (*originium.levelManager).maxLevelIdx -> r
+//@ props C12 C09
 //@ holds lm.mu
+//@ requires 0 <= level && level < len(lm.levels) && listOK(lm.levels[level]) && forall(Int(p), (0 <= p && p < ListLen[ref(lm.levels[level])]) ==> tag(elAt(lm, level, p).Value) == tagof(tableHandle), trig(ListAt[ref(lm.levels[level])][p]))
+//@ assigns nothing
+//@ ensures r >= 0 - 1 && forall(Int(p), (0 <= p && p < ListLen[ref(lm.levels[level])]) ==> thAt(lm, level, p).levelIdx <= r, trig(ListAt[ref(lm.levels[level])][p]))
+//@ ensures ListLen[ref(lm.levels[level])] == 0 ==> r == 0 - 1
+//@ loop 0:
+//@   invariant (e == nil || inList(e, lm.levels[level])) && res >= 0 - 1 && (ListLen[ref(lm.levels[level])] == 0 ==> res == 0 - 1)
+//@   invariant all(p, 0, epos(e, lm.levels[level]), thAt(lm, level, p).levelIdx <= res)
 //@ func originium.newOracle -> r
 //@ props C12 C02
 //@ trusted allocates the oracle and its two watermarks (each starts a consumer goroutine)
